@@ -68,8 +68,9 @@ function spaces(tier) {
   for (const s of base) {
     sp.push({
       name: s.name + '×options',
-      bounds: Object.assign({}, s.bounds, { options: 'optimize on/off, enableObjectSlots off (single deviations)' }),
-      *gen() { for (const c of s.gen()) for (const o of (c.items.length <= 2 || thorough ? O_JS : [O_JS[0]])) yield { items: c.items, o }; },
+      bounds: Object.assign({}, s.bounds, { options: 'optimize on/off, enableObjectSlots off (single deviations); quick tier: for pairs without a core item and for triples only the default vector' }),
+      // quick: every option vector for histories of length ≤1 and for pairs that contain a core item; the default vector for the rest
+      *gen() { const coreKeys = new Set(G.CORE.map((it) => G.key([it]))); for (const c of s.gen()) for (const o of (thorough || c.items.length <= 1 || (c.items.length === 2 && c.items.some((it) => coreKeys.has(G.key([it])))) ? O_JS : [O_JS[0]])) yield { items: c.items, o }; },
     });
   }
   sp.push({
